@@ -88,7 +88,7 @@ def main():
             by[k] = by.get(k, 0) + v
     else:
         nodes, edges, by = space.explore(bases, radius)
-    mode = "full" if chk.thorough else "quick"
+    mode = "full-light" if chk.thorough else "quick"
     inst = ("aff", "rev") if chk.thorough else ("aff",)
     counts, samples, rejected, unsupported = bcheck.run_configs(chk, nodes, kw=dict(entity_mode=mode, instances=inst), desc="C02")
     from ..runner import pmap as _pmap
